@@ -361,11 +361,14 @@ class KindInferenceMapper(Mapper):
         return self.map_product_like((expr.numerator, expr.denominator))
 
     def map_power(self, expr):
-        if self.check and not isinstance(self.rec(expr.exponent), Scalar):
+        exponent_kind = self.rec(expr.exponent)
+        if self.check and not isinstance(exponent_kind, Scalar):
             raise TypeError(
                     "exponentiation by '%s'"
                     "is meaningless"
-                    % type(self.rec(expr.exponent)).__name__)
+                    % type(exponent_kind).__name__)
+
+        return unify(self.rec(expr.base), exponent_kind)
 
     def map_generic_call(self, function_id, arg_dict, single_return_only=True):
         func = self.function_registry[function_id]
